@@ -145,6 +145,10 @@ pub fn avp_to_spec(a: &AVP) -> SAvp {
         AVP::RxConnectSpeed(x) => sa(38, SBody::U32(x.value)),
         AVP::SequencingRequired(_) => sa(39, SBody::Empty),
         AVP::Hidden(h) => SAvp { attr: h.attribute_type, hidden: true, body: SBody::Bytes(h.value.clone()) },
+        // a kind this harness does not know (the crate grew a variant): keep it comparable, and
+        // different from every reference value, instead of failing to build
+        #[allow(unreachable_patterns)]
+        other => SAvp { attr: 0xfffe, hidden: false, body: SBody::Str(format!("unknown AVP variant {:?}", other)) },
     }
 }
 
@@ -298,5 +302,7 @@ pub fn classify(e: &DecodeError) -> Option<SErr> {
         D::IncompleteControlMessagePayload => SErr::ControlPayloadShort,
         D::ControlMessageTypeNotFirst => SErr::TypeNotFirst,
         D::AVPReadError(_) | D::MessageReadError => return None,
+        #[allow(unreachable_patterns)]
+        _ => return None,
     })
 }
